@@ -27,8 +27,9 @@ pub const KTYPES: [&str; 17] = ["Kmer4", "Kmer5", "Kmer6", "Kmer8", "Kmer10", "K
 /// k-mer types below the pipeline's minimum (K >= 4): only reachable through `BaseGraph::add`
 pub const TINY_KTYPES: [&str; 2] = ["Kmer2", "Kmer3"];
 
-/// user-declared VarIntKmer types whose K fills the storage integer
-pub const FULL_WIDTH_KTYPES: [&str; 5] = ["Kmer4v", "Kmer8v", "Kmer16v", "Kmer32v", "Kmer64v"];
+/// user-declared VarIntKmer types whose K fills the storage integer, or whose storage integer is
+/// much wider than 2K bits
+pub const FULL_WIDTH_KTYPES: [&str; 11] = ["Kmer4v", "Kmer8v", "Kmer16v", "Kmer32v", "Kmer64v", "Kmer6w", "Kmer12w", "Kmer20w", "Kmer7u", "Kmer33u", "Kmer80u"];
 
 #[derive(Clone, Debug, Serialize, Deserialize, PartialEq)]
 pub enum Op {
@@ -417,7 +418,7 @@ impl Harness for Consumer {
     fn run(&self, c: &ConsumerCase, rec: &mut Rec) -> Result<(), Violation> {
         with_k!(
             c.graph.ktype.as_str(),
-            [Kmer2, Kmer3, Kmer4, Kmer5, Kmer6, Kmer8, Kmer10, Kmer12, Kmer14, Kmer15, Kmer16, Kmer20, Kmer24, Kmer30, KmerK31, Kmer32, Kmer40, Kmer48, Kmer64, Kmer4v, Kmer8v, Kmer16v, Kmer32v, Kmer64v],
+            [Kmer2, Kmer3, Kmer4, Kmer5, Kmer6, Kmer8, Kmer10, Kmer12, Kmer14, Kmer15, Kmer16, Kmer20, Kmer24, Kmer30, KmerK31, Kmer32, Kmer40, Kmer48, Kmer64, Kmer4v, Kmer8v, Kmer16v, Kmer32v, Kmer64v, Kmer6w, Kmer12w, Kmer20w, Kmer7u, Kmer33u, Kmer80u],
             run_consumer,
             (c, rec)
         )
